@@ -10,6 +10,9 @@ Imports nothing from pox.  Everything here is a re-statement of the property:
     nobody else waits on the same descriptor); an empty result needs the timeout to have passed;
   * a blocked task resumes only after (and after every) wake; data read from a socket reaches
     exactly one step; a send reports exactly the bytes the socket accepted;
+  * an operation that completes at once (free Lock.acquire, try-acquire, release, the harness's `imm`) is continued with its value,
+    also inside a sub-task; an empty Send completes; schedule() of an already scheduled task changes nothing (judged through
+    the clauses above: what the task waits for next is neither cut short nor answered twice);
   * timers fire once, or every interval until cancelled / stopped by a False return when
     self-stoppable; never early, never after cancel();
   * a task that raises disappears and the other tasks' traces are those of the run where it
@@ -129,10 +132,48 @@ class Index(object):
 
 
 def _fd_at(case, label, which):
+  """Instant from which select() has to report descriptor `label` for reading ("r_at") / writing ("w_at"): its own readiness,
+  or the other end going away (a hang-up makes it readable; an error / reset makes it readable and writable)."""
   i = int(label[1:])
   f = case.get("fds", [])[i]
   v = f.get(which)
+  h = f.get("hup_at")
+  if h is not None and (which == "r_at" or f.get("hup_kind") == "err"):
+    v = h if v is None else min(v, h)
   return None if v is None else T0 + v
+
+
+def _lock_certainly_free(ix, lock, rseq):
+  """Is lock `lock` free when the request at log position `rseq` is made?  Only the holder releases (harness rule), so the lock
+  is free if every earlier acquire request that did not come back False has been followed by a release request."""
+  acq = rel = 0
+  for tid, rq in ix.reqs.items():
+    for step, (q, pc, rtime, op) in rq.items():
+      if q >= rseq or op.get("lock") != lock:
+        continue
+      if op["op"] == "release":
+        rel += 1
+      elif op["op"] == "acquire":
+        res = ix.resume(tid, step)
+        if not (res is not None and res[0] < rseq and res[2] is False):
+          acq += 1
+  return rel >= acq
+
+
+def _hung_awaited(case, ix):
+  """Descriptors whose other end had gone away while a Select that was never answered waited for them."""
+  fin = ix.final.get("time", T0)
+  out = []
+  for tid, rq in ix.reqs.items():
+    for step, (q, pc, rtime, op) in rq.items():
+      if op["op"] == "select" and ix.resume(tid, step) is None:
+        for which, key in (("r", "r_at"), ("w", "w_at")):
+          for f in op.get(which, []):
+            fd = case.get("fds", [])[int(f[1:])]
+            h = fd.get("hup_at")
+            if h is not None and T0 + h <= fin and (which == "r" or fd.get("hup_kind") == "err"):
+              out.append(f)
+  return out
 
 
 def _due(op, rtime):
@@ -178,7 +219,13 @@ def check(case, log):
     if e[1] in ("TaskError", "SubError", "HBase", "RfError", "TimerError"):
       fail("raising-task-kills-scheduler", "an exception raised by a task escaped Scheduler.run():\n" + e[3])
     else:
-      fail("scheduler-died", "Scheduler.run() raised %s at %s:\n%s" % (e[1], e[2], e[3]), exc=e[1], where=e[2])
+      disc = {}
+      if case.get("hub") == "epoll" and e[1] == "KeyError":
+        hung = _hung_awaited(case, ix)
+        if hung:
+          # epoll reports EPOLLHUP / EPOLLERR unasked; the Select had not listed the descriptor as exceptional
+          disc["hup_unrequested"] = True
+      fail("scheduler-died", "Scheduler.run() raised %s at %s:\n%s" % (e[1], e[2], e[3]), exc=e[1], where=e[2], **disc)
   for e in ix.overlaps:
     if str(e[1]).startswith("thread:"):
       fail("step-on-wrong-thread", "a step of %s ran on %s, not on the scheduler's thread" % (e[2], e[1]))
@@ -195,8 +242,20 @@ def check(case, log):
 
   stop_seq, stop_time, stop_why = ix.stop if ix.stop else (len(log), ix.final.get("time", T0), ix.final.get("stopped"))
   quit_run = ix.quit is not None
-  budget = stop_why in ("cycle-budget", "select-budget")
+  budget = stop_why in ("cycle-budget", "select-budget", "empty-send-spin")
+  spinning = None
   if budget:
+    for tid, rq in ix.reqs.items():
+      for step, (rseq, pc, rtime, op) in rq.items():
+        if op["op"] == "send" and int(op.get("len", 1)) == 0 and ix.resume(tid, step) is None:
+          n = sum(1 for (q, s2, t2, m, off, a2) in ix.ssend if s2 == op["sock"] and q > rseq and off == 0)
+          if n >= 3:
+            spinning = (tid, op, rtime, n)
+  if spinning:
+    fail("empty-send-never-completes", "%s: %r (no bytes to send) requested at %s never completes: the socket was offered the empty "
+         "buffer %d times (each send() returning 0 is taken as 'try again') until the run was cut off after %s cycles" % (
+             spinning[0], spinning[1], spinning[2], spinning[3], ix.final.get("cycles")))
+  elif budget:
     fail("no-quiescence", "the scheduler was still cycling after %s cycles / %s selects (%s)" % (
         ix.final.get("cycles"), ix.final.get("selects"), stop_why))
   died = bool(ix.runexc)
@@ -365,6 +424,14 @@ def check(case, log):
           elif last_t + (op.get("delay") or 0) <= stop_time:
             fail("rf-slice-never-run", "%s: %r requested at %s: after %d call(s) of its return function the next slice (due %s) never came; idle at %s" % (
                 tid, op, rtime, len(calls), last_t + (op.get("delay") or 0), stop_time))
+        elif kind == "imm" or kind == "release" or (kind == "acquire" and (
+            not op.get("blocking", True) or _lock_certainly_free(ix, op.get("lock"), rseq))):
+          what = {"imm": "a blocking operation that completes at once (%s)" % op.get("how"), "release": "Lock.release()",
+                  "acquire": "Lock.acquire(%s) of a free lock" % ("" if op.get("blocking", True) else "blocking=False")}[kind]
+          if kind == "acquire" and not op.get("blocking", True) and not _lock_certainly_free(ix, op.get("lock"), rseq):
+            what = "Lock.acquire(blocking=False)"
+          fail("immediate-op-never-continued", "%s yielded %s at %s -- it does not wait for anything -- and was never run again "
+               "(run ended at %s by %s)" % (tid, what, rtime, stop_time, stop_why), op=kind, site="subtask" if "/" in tid else "task")
         elif kind == "acquire" and op.get("blocking", True):
           # it waits for the lock: every release() after its request must have handed the lock to some waiter
           for otid, orq in ix.reqs.items():
@@ -501,6 +568,13 @@ def check(case, log):
           fail("acquire-value", "%s: blocking acquire returned %r" % (tid, val))
         elif not isinstance(val, bool):
           fail("acquire-value", "%s: acquire returned %r" % (tid, val))
+        elif val is not True and _lock_certainly_free(ix, op.get("lock"), rseq):
+          fail("acquire-value", "%s: acquire(blocking=False) of a free lock returned %r" % (tid, val), free=True)
+      elif kind == "imm":
+        want = ["imm", tid, pc] if op.get("v", "token") == "token" else op.get("v")
+        if val != want or type(val) != type(want):
+          fail("immediate-op-value", "%s: the operation (%s) completed with %r but the task received %r" % (tid, op.get("how"), want, val),
+               how=op.get("how"))
 
   # a sub-task's value / exception reaches exactly its caller, once
   for tok, who in tokens.items():
@@ -534,7 +608,8 @@ def check(case, log):
         fail("task-never-started", "%s was started but never ran (run ended at %s by %s)" % (who, stop_time, stop_why))
 
   # ------------------------------------------------------------------ the scheduler never sleeps past something due
-  _check_idle(case, ix, fail, P, is_poisoned, timers)
+  if not died:          # (after the scheduler or the hub thread has died everything else is late: the death is what is reported)
+    _check_idle(case, ix, fail, P, is_poisoned, timers)
 
   # ------------------------------------------------------------------ timers
   if True:
@@ -924,6 +999,20 @@ def labels(case, log):
         L.add("woken-late-by-other-work")
       if d is not None and res and res[1] == d and d > rtime:
         L.add("woken-exactly-on-time")
+      if k == "imm":
+        L.add("imm:" + str(op.get("how")))
+      if k in ("imm", "acquire", "release") and "/" in tid and res:
+        L.add("immediate-op-in-subtask:" + k + (":nested" if tid.count("/") >= 2 else ""))
+      if k == "send" and int(op.get("len", 1)) == 0:
+        L.add("send:empty" + (":completed" if res else ":never"))
+      if k == "select" and res and isinstance(res[2], dict) and "sel" in res[2]:
+        for f in res[2]["sel"][0] + res[2]["sel"][1]:
+          fd = case.get("fds", [])[int(f[1:])]
+          if fd.get("hup_at") is not None and T0 + fd["hup_at"] <= res[1]:
+            L.add("select-fd:reported-after-hangup:" + ("err" if fd.get("hup_kind") == "err" else "hup"))
+  for a in ix.acts:
+    if a[4] == "rewake":
+      L.add("schedule()-of-queued-task:" + str(a[6]))
   for (tid, pc), calls in ix.rfs.items():
     for c in calls:
       L.add("rf:" + c[3])
